@@ -718,7 +718,9 @@ def explore(rec, env, cfg, tier, roots, depth):
                 f = variants[vi]
                 vi += 1
                 r = step(h, m, (op, f))
-                if f is None and m.nfaults < maxf:
+                overlap_op = op[0] == "co" and op[2] in ("inval_during", "tick_during")
+                if f is None and m.nfaults < maxf and not (tier == "quick" and overlap_op):
+                    # (quick: the overlap checkouts are explored in every state but not combined with a fault of their own)
                     for j, c in enumerate(r.calls):
                         if not (c.dead and c.kind != "connect"):
                             variants += [(j, k) for k in kinds if fault_allowed(c, k)]
@@ -760,7 +762,7 @@ def run_shard(shard, tier, rec):
             f = variants[vi]
             vi += 1
             r = step((), m0, (first, f))
-            if f is None:
+            if f is None and not (tier == "quick" and first[0] == "co" and first[2] in ("inval_during", "tick_during")):
                 for j, c in enumerate(r.calls):
                     variants += [(j, k) for k in kinds if fault_allowed(c, k)]
             if r.model is not None:
